@@ -4,6 +4,7 @@ import (
 	"errors"
 	"fmt"
 	"math/rand"
+	"path/filepath"
 	"time"
 
 	"github.com/thomasjungblut/go-sstables/simpledb"
@@ -123,4 +124,12 @@ func dbGet(db *simpledb.DB, k string) (string, bool, error) {
 		return "", false, err
 	}
 	return v, true, nil
+}
+
+// realDir resolves symbolic links in a scratch directory path (the system-call traces name real paths).
+func realDir(d string) string {
+	if r, err := filepath.EvalSymlinks(d); err == nil {
+		return r
+	}
+	return d
 }
